@@ -528,8 +528,85 @@ impl Property for C05 {
                 o.class("also-resumed-after-a-connection-loss");
             }
         }
+        if o.fail.is_none() {
+            let h = case_hash(case);
+            o.fail = c05_run_dropped_in_a_blocked_request((h % 4) as u8, h / 4 % 2 == 0);
+            o.class("run-dropped-while-a-request-waits-for-the-writer");
+        }
         o
     }
+}
+
+/// `run()` is dropped (a timeout or `select!` around it) while the request of one operation waits
+/// for a writer that has accepted none of its bytes, then called again: the request is lost with
+/// the dropped future (its caller learns so or keeps waiting), and the NEXT operation of the same
+/// kind is written and completes with its own acknowledgement. kind: 0 ping, 1 unsubscribe,
+/// 2 subscribe, 3 QoS 1 publish.
+pub fn c05_run_dropped_in_a_blocked_request(kind: u8, first_dropped: bool) -> Option<Failure> {
+    use crate::world::World;
+    let plan = WritePlan::default();
+    let mut w = World::new();
+    if connect_and_run(&mut w, ConnectSpec::default(), &default_connack(), &plan).is_err() {
+        return None;
+    }
+    let mut tr = Tracker::new();
+    tr.skip_existing(&mut w);
+    let spec = |tag: usize| match kind {
+        0 => OpSpec::Ping,
+        1 => OpSpec::Unsubscribe(tagged_unsubscribe(tag, 1)),
+        2 => OpSpec::Subscribe(tagged_subscribe(tag, 1)),
+        _ => OpSpec::Publish(tagged_publish(tag, 1)),
+    };
+    // the writer accepts nothing from now on
+    let wire_before = w.wire_len();
+    w.writer.grant(0);
+    w.tick();
+    let first = w.start_op(0, spec(1))?;
+    settle(&mut w, &plan, true);
+    if w.run_result.is_some() || !w.ctx_running() || w.wire_len() != wire_before {
+        return None;
+    }
+    if !w.cancel_run() {
+        return None;
+    }
+    if first_dropped {
+        w.drop_op(first);
+    }
+    w.writer.unlimited();
+    w.tick();
+    if !w.start_run() {
+        return None;
+    }
+    settle(&mut w, &plan, true);
+    let second = w.start_op(0, spec(2))?;
+    settle(&mut w, &plan, true);
+    tr.update(&mut w);
+    if let Some(p) = first_panic(&w) {
+        return Some(Failure { sig: format!("PANIC/{}", panic_sig(&p)), msg: p });
+    }
+    if w.run_result.is_some() {
+        return None; // C13's claim
+    }
+    let name = ["ping", "unsub", "sub", "pub1"][kind as usize % 4];
+    if !tr.on_wire(second) && kind != 0 {
+        return Some(Failure { sig: format!("C05/not-completed/{name}/after-run-dropped-in-a-blocked-write"), msg: "the request issued after run() was called again is not on the wire".into() });
+    }
+    let ack = match kind {
+        0 => rc::Packet::Pingresp,
+        1 => rc::Packet::Unsuback(rc::AckList { pid: tr.pid(second)?, reasons: vec![0], ..Default::default() }),
+        2 => rc::Packet::Suback(rc::AckList { pid: tr.pid(second)?, reasons: vec![0], ..Default::default() }),
+        _ => rc::Packet::Puback(rc::Ack { pid: tr.pid(second)?, ..Default::default() }),
+    };
+    feed_packet(&mut w, &ack, &rc::Form::canonical());
+    settle(&mut w, &plan, true);
+    let how = format!("run() dropped while the first {name} request waited for a writer that had accepted nothing; run() called again; a second {name} written and acknowledged{}", if first_dropped { " (the first future dropped as well)" } else { "" });
+    if w.ops[second].res.is_none() {
+        return Some(Failure { sig: format!("C05/not-completed/{name}/after-run-dropped-in-a-blocked-write"), msg: format!("the second operation is still pending after its acknowledgement ({how})") });
+    }
+    if !first_dropped && matches!(w.ops[first].res, Some(OpRes::Ok) | Some(OpRes::SubOk { .. }) | Some(OpRes::UnsubOk { .. })) {
+        return Some(Failure { sig: format!("C05/completed-without-own-ack/{name}/after-run-dropped-in-a-blocked-write"), msg: format!("the first operation, whose request never reached the wire, completed with {:?} ({how})", w.ops[first].res) });
+    }
+    None
 }
 
 // ---------------------------------------------------------------------------------
